@@ -404,8 +404,9 @@ def job_real_files(kind):
                         problems.append(f"frame built from piece {i} has wrong shape / frequencies")
                         break
             elif kind == 'split_fil':
-                outd = os.path.join(tmp, 'out')
-                shutil.rmtree(outd, ignore_errors=True)
+                # (the output directory need not exist, nor its parent: the documented behaviour is to create it)
+                shutil.rmtree(os.path.join(tmp, 'out'), ignore_errors=True)
+                outd = os.path.join(tmp, 'out', 'pieces') if (nch + fch) % 2 else os.path.join(tmp, 'out')
                 import contextlib, io
                 with contextlib.redirect_stdout(io.StringIO()):
                     fns = stg.split_fil(fn, outd, fch, tchans=tch, f_shift=s)
